@@ -91,6 +91,9 @@ FULL = dict(
 )
 RED = dict(shift=[1e3, -1e6], affine=[("ramp", 10.0)], glob=[-3.0, 1e6])
 RED_X = dict(shift=[1e3], affine=[("ramp", 10.0)], glob=[-3.0])
+# default PCA pre-reduction of cross-set models (float n_pca_modes = variance fraction): rescalings only, over many orders of magnitude
+PCA_P = dict(shift=[], affine=[("lo", 10.0), ("ramp", 10.0)], glob=[1e-6, 1e-5, 1e5])
+PCA_P_T = dict(shift=[], affine=[("lo", 10.0), ("ramp", 10.0), ("hi", -10.0), ("alt", 1e3)], glob=[1e-6, 1e-5, 1e5, -3.0])
 
 
 # ----------------------------------------------------------------------------- alphabet
@@ -163,7 +166,7 @@ def _kind(path):
     return ">".join(e["kind"] for e in path)
 
 
-def _mk(model, shape, spec, center, std, container, start, path, k, latname="lat", lats=None, alpha=None, pca="off"):
+def _mk(model, shape, spec, center, std, container, start, path, k, latname="lat", lats=None, alpha=None, pca="off", irr=None):
     nf = len(shape) - 1
     lats = lats or [DEFAULT_LATS[GRID[p][0]] for p in shape[1:]]
     c = dict(
@@ -173,6 +176,8 @@ def _mk(model, shape, spec, center, std, container, start, path, k, latname="lat
     if nf == 2:
         c["alpha"] = list(alpha)
         c["pca"] = pca
+        if irr is not None:
+            c["irr"] = irr
         c["patterns"] = False
     return c
 
@@ -302,6 +307,28 @@ def cases(tier, seed):
                 cross("CPCCA", [ax, ay], (9, 4, 3), [FT, TF], ["DA"], S4 if main else x_mixed, [], P1=RED_X, both=RED_X)
         cross("CPCCA", [0.5, 0.5], (12, 6, 4), STD4, ["DA"], [x_all] + x_mixed, [x_all], P1=RED)
 
+    # default PCA pre-reduction: n_pca_modes is a variance fraction, so the number of retained PCs must not depend on the units
+    # of the data (global factor) nor, with standardisation on, on per-feature units (affine); edge on X only, Y only, both
+    def cross_pca(model, alpha, fracs_irr, P):
+        shape = (12, 6, 4)
+        for (frac, irr) in fracs_irr:
+            k = 1 if irr < 1.0 else 2  # int(rank * 0.3) = 1 PC per field; >= 2 PCs are needed for 90 % on the catalogue spectrum
+            for std in (FF, TT):
+                for st in ([x_none] if not thorough else [x_none, x_all]):
+                    for path in _paths(st, 2, True, std, P, None) + _both(st, True, std, P):
+                        if not all(e["kind"] in ("affine", "global") for e in path):
+                            continue
+                        out.append(_mk(model, shape, "geometric", True, std, "DA", st, path, k, alpha=alpha, pca="f%g" % frac, irr=irr))
+
+    ALLF = [(0.999, 0.3), (0.999, 1.0), (0.9, 0.3), (0.9, 1.0)]
+    if not thorough:
+        cross_pca("MCA", [1.0, 1.0], ALLF, PCA_P)
+        cross_pca("CPCCA", [0.5, 0.5], [(0.999, 1.0), (0.9, 0.3)], PCA_P)
+        cross_pca("CCA", [0.0, 0.0], [(0.999, 1.0), (0.9, 0.3)], PCA_P)
+    else:
+        for model, alpha in (("MCA", [1.0, 1.0]), ("CPCCA", [0.5, 0.5]), ("CPCCA", [0.0, 1.0]), ("CCA", [0.0, 0.0])):
+            cross_pca(model, alpha, ALLF, PCA_P_T)
+
     for c in out:
         if "patterns" in c:
             c["patterns"] = thorough  # homogeneous/heterogeneous correlation patterns are compared in the thorough tier only (0.1 s per fit)
@@ -402,7 +429,7 @@ class Ctx:
     # ---- nodes
     def start(self):
         st = self.case["start"]
-        return [dict(M=self.base[f], w=self.W[f] if st["w"][f] else None, cos=bool(st["cos"][f])) for f in range(self.nf)]
+        return [dict(M=self.base[f], w=self.W[f] if st["w"][f] else None, cos=bool(st["cos"][f]), g=np.ones(self.base[f].shape[1])) for f in range(self.nf)]
 
     def _scales(self, pat, p):
         if pat == "ramp":
@@ -426,11 +453,14 @@ class Ctx:
             fs["M"] = fs["M"] + e["mag"] * self.u[f][None, :]
         elif k == "affine":
             fs["M"] = (fs["M"] + e["off"] * self.u[f][None, :]) * self._scales(e["pat"], fs["M"].shape[1])[None, :]
+            fs["g"] = fs["g"] * self._scales(e["pat"], fs["M"].shape[1])
         elif k == "global":
             fs["M"] = fs["M"] * e["c"]
+            fs["g"] = fs["g"] * e["c"]
             c[f] = e["c"]
         elif k == "fold":
             fs["M"] = fs["M"] * fs["w"][None, :]
+            fs["g"] = fs["g"] * fs["w"]
             fs["w"] = None
         elif k == "cos2w":
             cw = self.fields[f].coslat
@@ -472,6 +502,7 @@ class Ctx:
         if hasattr(m, "singular_values"):
             o["sv"] = np.asarray(m.singular_values().sel(mode=modes).values)
         o["ev"] = np.asarray(m.explained_variance().sel(mode=modes).values)
+        o["G"] = [self._gain(m.preprocessor, 0, node)]
         o["vals"]["explained_variance_ratio"] = np.asarray(m.explained_variance_ratio().sel(mode=modes).values)
         return o
 
@@ -483,8 +514,10 @@ class Ctx:
         pca = case["pca"] != "off"
         kw = dict(n_modes=k, standardize=list(self.std), use_coslat=[node[0]["cos"], node[1]["cos"]], use_pca=pca, n_pca_modes="all",
                   random_state=5, solver="full")
-        if case["model"] == "MCA":
-            m = xe.cross.MCA(**kw)
+        if str(case["pca"]).startswith("f"):  # the default kind of pre-reduction: keep a fraction of the variance
+            kw.update(n_pca_modes=float(case["pca"][1:]), pca_init_rank_reduction=float(case["irr"]))
+        if case["model"] in ("MCA", "CCA"):
+            m = getattr(xe.cross, case["model"])(**kw)
         else:
             m = xe.cross.CPCCA(alpha=list(case["alpha"]), **kw)
         m.fit(args[0], args[1], dim="time", weights_X=wts[0], weights_Y=wts[1])
@@ -497,6 +530,7 @@ class Ctx:
             V=[fx.features(cx, ("mode", modes)), fy.features(cy, ("mode", modes))],
             S=[D.to_matrix(sx, ["time"], ["mode"], tref), D.to_matrix(sy, ["time"], ["mode"], tref)],
             sv=np.asarray(m.data["singular_values"].sel(mode=modes).values), vals={}, mats={}, pats={},
+            G=[self._gain(m.preprocessor1, 0, node), self._gain(m.preprocessor2, 1, node)],
         )
         names = ["squared_covariance_fraction", "fraction_variance_X_explained_by_X", "fraction_variance_Y_explained_by_Y",
                  "fraction_variance_Y_explained_by_X", "cross_correlation_coefficients"]
@@ -514,6 +548,21 @@ class Ctx:
             (p1, p2), _ = getattr(m, nm)(correction=None)
             o["pats"][nm] = [fx.features(p1, ("mode", modes)), fy.features(p2, ("mode", modes))]
         return o
+
+    def _gain(self, pre, f, node):
+        """per-cell factor the fitted Scaler multiplies the (centred) data with, times the gain of the node's data over the base
+        data: coslat_weights_ * weights_ / std_ * g.  White-box: exactly the state the property's anchors name."""
+        outs = []
+        for sc in pre.scaler.transformers:
+            g = sc.weights_
+            if sc.with_coslat:
+                g = g * sc.coslat_weights_
+            if sc.with_std:
+                g = g / sc.std_
+            outs.append(g.expand_dims(one=[0]))
+        fld = self.fields[f]
+        obj = outs if fld.container == "LIST" else outs[0]
+        return fld.features(obj, ("one", np.array([0])))[:, 0] * node[f]["g"]
 
     # ---- conditioning of a node (numpy only): spectrum of what is decomposed, rounding error of forming the node
     def conditioning(self, node):
@@ -533,9 +582,11 @@ class Ctx:
             if node[f]["w"] is not None:
                 scale = scale * node[f]["w"]
             delta = EPS * np.linalg.norm(np.abs(M) * scale[None, :]) / max(s[0], 1e-300)
-            per.append(dict(P=P, s=s, delta=delta, sd_min=(float(sd.min()) if sd.size else 0.0) if self.std[f] else np.inf))
+            # relative rounding error of a stored standard deviation: the column carries eps * max|x| absolute error
+            cell = np.full(M.shape[1], 4 * EPS) if not self.std[f] else 4 * EPS * (1.0 + np.max(np.abs(M), axis=0) / np.maximum(sd, 1e-300))
+            per.append(dict(P=P, s=s, delta=delta, cell=cell, sd_min=(float(sd.min()) if sd.size else 0.0) if self.std[f] else np.inf))
         if self.nf == 1:
-            return dict(s=per[0]["s"], delta=per[0]["delta"], sd_min=per[0]["sd_min"])
+            return dict(s=per[0]["s"], delta=per[0]["delta"], sd_min=per[0]["sd_min"], cell=[per[0]["cell"]])
         N = self.n
         Wh, delta = [], 0.0
         for f in range(2):
@@ -549,7 +600,7 @@ class Ctx:
             Wh.append(P)
             delta += per[f]["delta"] * kappa
         C = Wh[0].conj().T @ Wh[1] / (N - 1)
-        return dict(s=np.linalg.svd(C, compute_uv=False), delta=delta, sd_min=min(per[0]["sd_min"], per[1]["sd_min"]))
+        return dict(s=np.linalg.svd(C, compute_uv=False), delta=delta, sd_min=min(per[0]["sd_min"], per[1]["sd_min"]), cell=[per[0]["cell"], per[1]["cell"]])
 
 
 # ----------------------------------------------------------------------------- law evaluation
@@ -581,6 +632,20 @@ def evaluate(a, b, c, alpha, conds, k, bad):
     cabs = [abs(x) for x in c]
     strict = [(c[f] == 1.0) or (alpha[f] == 1.0) for f in range(nf)]
     neg = nf == 2 and (c[0] * c[1] < 0)
+
+    # ---- what the Scaler learnt: per cell, (coslat x weights / std) x gain of the node's data is multiplied by exactly c.
+    # Relative per cell, so that a cell with a tiny weight (the poles under use_coslat) is compared as sharply as any other
+    for f in range(nf):
+        Ga, Gb = np.asarray(a["G"][f]), np.asarray(b["G"][f])
+        pred = c[f] * Ga
+        tcell = TOL_FLOOR + K_TOL * (conds[0]["cell"][f] + conds[1]["cell"][f])
+        rel = np.abs(Gb - pred) / np.maximum(np.maximum(np.abs(pred), np.abs(Gb)), 1e-300)
+        rel = np.where((pred == 0) & (Gb == 0), 0.0, rel)
+        i = int(np.argmax(rel - tcell))
+        if not np.all(rel <= tcell):
+            bad("effective_weight", "field %s cell %d: the fitted scaler multiplies the base data by %.6e, predicted %.6e (rel. dev. %.3e > %.1e)"
+                % ("xy"[f], i, Gb[i], pred[i], rel[i], tcell[i]), field="xy"[f])
+        done["values"] += 1
 
     # ---- values
     if "sv" in a and all(strict):
